@@ -248,7 +248,10 @@ func rulesC03(c *Ctx) {
 				if f.IsCallTo(gs.Call, riObj) {
 					m++
 					root := f.Root()
-					c.Check(root.Obj != nil && root.Obj.Name() == "start" && c.inFlightContext(f) != "", "go-readIncoming:"+f.Name(), f, gs, "the reader goroutine is started once, from start, under the state lock")
+					// (from start, or from NewConnection when start is written out there: either way once per connection, since
+					// neither is called again for the same connection)
+					okRoot := root.Obj != nil && (root.Obj.Name() == "start" || root.Obj.Name() == "NewConnection")
+					c.Check(okRoot && c.inFlightContext(f) != "", "go-readIncoming:"+f.Name(), f, gs, "the reader goroutine is started once, from start, under the state lock")
 				}
 			}
 		}
